@@ -203,7 +203,7 @@ def okPair (s₁ s₂ : Side) (H : Hyps) (d : Nat) (R : Rel) (a b : Nat) : Bool 
        | _ => false)
     else if seqB then
       (match nb.kids with
-       | [y, st] => sepB s₁ s₂ d R a y st
+       | [y, st] => sub (shOf s₁.sh a) [.N, .T] && sepB s₁ s₂ d R a y st
        | _ => false)
     else if !(supported na && supported nb) || na.suppress != nb.suppress then false
     else
